@@ -1,7 +1,7 @@
-from contracts import permodule, cfgsources
+from contracts import permodule, cfgsources, flagnames
 
 def build(tier):
-    return dict(targets=permodule.targets(tier) + cfgsources.targets(tier), assumptions=[
+    return dict(targets=permodule.targets(tier) + cfgsources.targets(tier) + flagnames.targets(tier), assumptions=[
         "build_per_module_cache: only the ORDER in which sections are handed on is decided (source-level order frame); that each section is resolved on top of clone_for_module(key) is read off the code, not proved",
         "the section table (per_module_options) is in file order: configparser / tomllib and config_parser.parse_config_file are not under contract",
         "re.Pattern.match and compile_glob are an uninterpreted matching relation"], trusted_base=[])
